@@ -76,6 +76,11 @@ def run_table(frames, sr, memory, strategy, entry, perm_rng=None):
 
 
 def run(chk):
+    with linkgen.size_limit(linkgen.LIMIT):
+        return _run(chk)
+
+
+def _run(chk):
     common.quiet_trackpy()
     chk.coq()
     rng = chk.rng
@@ -86,10 +91,10 @@ def run(chk):
     # pairs at distance exactly search_range (3-4-5, 6-8-10, 5-12-13): every path must admit them (defect F10, fixed)
     for (dx, dy, r) in [(3, 4, 5), (6, 8, 10), (5, 12, 13), (0, 5, 5)]:
         corpus.append(dict(frames=[np.array([[0., 0.], [40., 40.]]), np.array([[float(dx), float(dy)], [40., 41.]])], sr=Fraction(r), memory=0,
-                           max_size=30, strategy='recursive', ndim=2))
+                           max_size=linkgen.LIMIT, strategy='recursive', ndim=2))
     for k in range(n):
         c = corpus[k] if k < len(corpus) else c02.gen_case(rng, chk.tier)
-        c['max_size'] = 30
+        c['max_size'] = linkgen.LIMIT
         frames, sr, mem = c['frames'], c['sr'], c['memory']
         if any(len(f) == 0 for f in frames[:1]) or linkgen.max_inrange(frames, sr, mem) > 8:
             chk.tally('skipped'); continue
@@ -156,6 +161,11 @@ def run(chk):
 
 
 def replay(chk, path):
+    with linkgen.size_limit(linkgen.LIMIT):
+        return _replay(chk, path)
+
+
+def _replay(chk, path):
     common.quiet_trackpy()
     chk.coq()
     r = json.load(open(path))['replay']
@@ -164,7 +174,7 @@ def replay(chk, path):
     frames = [np.array(f, dtype=float).reshape(len(f), -1) for f in cj['frames']]
     ndim = max([f.shape[1] for f in frames if f.size] or [2])
     frames = [f.reshape(len(f), ndim) for f in frames]
-    c = dict(frames=frames, sr=sr, memory=cj['memory'], max_size=30, strategy='recursive', ndim=ndim)
+    c = dict(frames=frames, sr=sr, memory=cj['memory'], max_size=linkgen.LIMIT, strategy='recursive', ndim=ndim)
     name = r.get('run', 'link_iter/recursive')
     parts = name.split('/')
     if parts[0] == 'legacy':
